@@ -237,6 +237,24 @@ def default_calendar(ctx: Context, rule: str) -> None:
     fi = ctx.func('emsarray.utils.format_time_units_for_ems')
     ctx.check(rule, val == 'proleptic_gregorian', "the calendar assumed when none is given is the proleptic Gregorian one: the calendar of numpy datetime64 and of xarray's decoded times, defined for every date", fi, fi.node,
               construct=f"DEFAULT_CALENDAR = {val!r}")
+    # netCDF4's getncattr raises for an attribute the variable does not have: the default can only be reached through a presence test
+    fx = ctx.func('emsarray.utils.fix_time_units_for_ems')
+    flow = ctx.flow(fx)
+    reads = [c for c in calls_in(fx) if isinstance(c.func, ast.Attribute) and c.func.attr == 'getncattr' and c.args and const_value(c.args[0], None) == 'calendar']
+    unguarded = []
+    for c in reads:
+        g = guards(fx, c)
+        owner = norm_text(c.func.value)
+        in_try = any(isinstance(t, ast.Try) and any(x is c for b_ in t.body for x in ast.walk(b_))
+                     and any(h.type is None or 'AttributeError' in norm_text(h.type) or norm_text(h.type) in ('Exception',) for h in t.handlers)
+                     for t in ast.walk(fx.node))
+        if (f"'calendar' in {owner}.ncattrs()", True) not in g and (f"hasattr({owner}, 'calendar')", True) not in g and not in_try:
+            unguarded.append(c)
+    fmt = [c for c in calls_in(fx) if callee(ctx, fx, c) == 'emsarray.utils.format_time_units_for_ems']
+    falls_back = bool(fmt) and len(fmt[0].args) + len(fmt[0].keywords) >= 2 and \
+        flow.reaches(fmt[0].args[1] if len(fmt[0].args) > 1 else kwarg(fmt[0], 'calendar'), lambda n: isinstance(n, ast.Name) and n.id == 'DEFAULT_CALENDAR')
+    ctx.check(rule, bool(reads) and not unguarded and falls_back, "the calendar attribute of the time variable is optional: it is read only when present (getncattr raises otherwise) and the default calendar is used when it is absent", fx,
+              (unguarded or reads or [fx.node])[0], construct=f"calendar reads without a presence test: {[norm_text(c) for c in unguarded] or 'none'}; default reaches the formatter: {falls_back}")
 
 
 def crs_centre(ctx: Context, rule: str) -> None:
